@@ -49,6 +49,39 @@ theorem single_layout (pre post : List GoStr) (imp stop_ pkg : GoStr)
   rw [e1, go_neutrals pkg pre _ 0 false none hpre]
   simp [addImportGo, himp, hig, hs1, hs2, hs3, hs4]
 
+/-- a single-line import: starts with `import ` and does not open a group -/
+def ImportLine (l : GoStr) : Prop := hasPfx l kwImportSp = true ∧ hasPfx l kwImportGroup = false
+
+theorem go_imports (pkg : GoStr) (imps rest : List GoStr) (i : Nat) (ls : Option Nat)
+    (h : ∀ l ∈ imps, ImportLine l) (hne : imps ≠ []) :
+    addImportGo pkg i (imps ++ rest) false ls = addImportGo pkg (i + imps.length) rest false (some (i + imps.length - 1)) := by
+  induction imps generalizing i ls with
+  | nil => exact absurd rfl hne
+  | cons l imps ih =>
+    obtain ⟨h1, h2⟩ := h l List.mem_cons_self
+    simp only [List.cons_append, addImportGo, h1, h2, Bool.false_eq_true, if_false, if_true]
+    by_cases hn : imps = []
+    · subst hn; simp
+    · rw [ih (i+1) (some i) (fun x hx => h x (List.mem_cons_of_mem _ hx)) hn]
+      simp only [List.length_cons]
+      have e1 : i + 1 + imps.length = i + (imps.length + 1) := by omega
+      have e2 : i + 1 + imps.length - 1 = i + (imps.length + 1) - 1 := by omega
+      rw [e1]
+
+/-- **Any number of single-line imports** — after neutral lines, a run of one or more `import …`
+lines followed by a line that ends the scan: the new import line goes right after the last of them. -/
+theorem single_lines_layout (pre imps post : List GoStr) (stop_ pkg : GoStr)
+    (hpre : ∀ l ∈ pre, Neutral l) (himp : ∀ l ∈ imps, ImportLine l) (hne : imps ≠ [])
+    (hs1 : hasPfx stop_ kwImportGroup = false) (hs2 : hasPfx stop_ kwImportSp = false) (hs3 : hasPfx stop_ [41] = false)
+    (hs4 : stopLine stop_ = true) :
+    addImportEdit (pre ++ imps ++ [stop_] ++ post) pkg = (pre.length + imps.length, kwImportSp ++ pkg ++ [10]) := by
+  unfold addImportEdit
+  have e1 : pre ++ imps ++ [stop_] ++ post = pre ++ (imps ++ (stop_ :: post)) := by simp
+  rw [e1, go_neutrals pkg pre _ 0 false none hpre, go_imports pkg imps _ _ none himp hne]
+  have hl : 0 < imps.length := List.length_pos_iff.mpr hne
+  simp only [addImportGo, hs1, hs2, hs3, hs4, Bool.false_eq_true, if_false, if_true, Bool.false_and]
+  congr 1; omega
+
 /-- **No imports** — when no line starts an import before the scan ends, the import line is
 inserted at line 2 followed by a blank line (right after `package …` + blank line in the layout
 the property quantifies over). -/
@@ -101,6 +134,5 @@ example : addImportEdit [bs "package x", [], bs "import (", bs "\t\"fmt\"", bs "
     (4, [9] ++ bs "\"os\"" ++ [10]) := by decide +kernel
 
 -- NOT PROVED: "the edited file still compiles and declares exactly the previous imports plus the new one" — decided by the oracle (apply the real edit, recompile with the real compiler) and the tie (Completion reply of the real proxy vs this model)
--- PLANNED: single-line import layout theorem (insertion after the last `import …` line)
 
 end Px.C20
